@@ -863,36 +863,92 @@ Proof.
         simpl. rewrite Ha, app_length. lia.
 Qed.
 
-Lemma step_ctx : forall k s c n r, Good k s c -> 1 <= n -> length (active s) + n <= budget k ->
-  hits_nv_context k (EprContext n r) = false -> StepOK k s c (EprContext n r).
+(* sequential keep whose post routine measures: every pair passes through one ID *)
+Lemma add_handles_spec : forall n s v, exists new,
+  active (add_handles s v n) = active s ++ new /\ length new = n /\
+  next_h (add_handles s v n) = next_h s + n /\ pending (add_handles s v n) = pending s /\
+  last_new (add_handles s v n) = last_new s.
 Proof.
-  intros k s c n r HGood Hn Hb Hf. pose proof (budget_le k) as Hbl. unfold StepOK. simpl.
+  induction n as [|n IH]; intros s v; simpl.
+  - exists []. rewrite app_nil_r, Nat.add_0_r. auto.
+  - destruct (IH (add_handle s v) v) as [new [Ha [Hl [Hn [Hp Hln]]]]].
+    exists ((next_h s, v) :: new). rewrite Ha, Hn, Hp, Hln. unfold add_handle. simpl.
+    rewrite <- app_assoc. simpl. split; [reflexivity|]. split; [lia|]. split; [lia|]. split; reflexivity.
+Qed.
+
+Lemma seq_run_ok : forall k s c n zero, Good k s c -> 1 <= n -> length (active s) + 1 <= budget k ->
+  (zero = true -> single_comm k = true) ->
+  exists s' c', seq_run k s n zero = inl s' /\ Ext s c s' c' /\ G0 k (active s') c' /\ last_new s' = None /\
+    handles s' = handles s /\ next_h s' = next_h s + n.
+Proof.
+  intros k s c n zero HGood Hn Hb Hz. pose proof (budget_le k) as Hbl.
+  unfold seq_run, seq_handles. destruct (nv k) eqn:Hnv.
+  - destruct (free_up0_ok k s c HGood (Good_room _ _ _ HGood Hnv)) as [s1 [c1 [E1 [HE1 [HG1 [H01 [Hh1 [Hn1 _]]]]]]]].
+    rewrite E1. destruct HG1 as [HH1 [HR1 Hlen1]].
+    destruct (commit_G0 _ _ _ HR1) as [c2 [HE2 HG2]].
+    destruct (add_handles_spec n (commit s1) 0) as [new [Ha [Hl [Hnh [Hp Hln]]]]].
+    assert (Hu : (if zero then 0 else 0) = 0) by (destruct zero; reflexivity). rewrite Hu.
+    eexists. exists c2. split; [reflexivity|]. split.
+    + eapply Ext_trans; [exact HE1|]. eapply Ext_trans; [exact HE2|].
+      exists (ctx_loop (repeat 0 n)). split.
+      * simpl. unfold all_pending at 1. rewrite Hln, Hp. simpl. rewrite app_nil_r. reflexivity.
+      * apply ctx_loop_ok. intros v Hv. apply repeat_spec in Hv. subst v. destruct HG2 as [Hcap _ _ Hs _]. split.
+        -- intros H. apply H01. apply Hs. exact H.
+        -- rewrite Hcap. rewrite (budget_nv k Hnv) in Hb. lia.
+    + simpl. rewrite Ha. simpl. rewrite (drop_last_app _ _ _ Hl).
+      split; [exact HG2|]. split; [reflexivity|]. split; [exact Hh1|]. rewrite Hnh. simpl. lia.
+  - destruct HGood as [HH [HR Hlen]].
+    destruct (new_id_spec (ids s)) as [v [Ev [Hv [_ Hle]]]]. rewrite Ev.
+    destruct (commit_G0 _ _ _ HR) as [c1 [HE HG]].
+    destruct (add_handles_spec n (commit s) v) as [new [Ha [Hl [Hnh [Hp Hln]]]]].
+    unfold ids in Hle. rewrite map_length in Hle.
+    assert (Hu : (if zero then 0 else v) = v).
+    { destruct zero; [|reflexivity]. specialize (Hz eq_refl). unfold single_comm in Hz. rewrite Hnv in Hz. simpl in Hz.
+      apply Nat.eqb_eq in Hz. unfold budget in Hb. rewrite Hnv in Hb. lia. }
+    rewrite Hu.
+    eexists. exists c1. split; [reflexivity|]. split.
+    + eapply Ext_trans; [exact HE|]. exists (ctx_loop (repeat v n)). split.
+      * simpl. unfold all_pending at 1. rewrite Hln, Hp. simpl. rewrite app_nil_r. reflexivity.
+      * apply ctx_loop_ok. intros x Hx. apply repeat_spec in Hx. subst x. destruct HG as [Hcap _ _ Hs _]. split.
+        -- intros H. apply Hv. apply Hs. exact H.
+        -- rewrite Hcap. lia.
+    + simpl. rewrite Ha. simpl. rewrite (drop_last_app _ _ _ Hl).
+      split; [exact HG|]. split; [reflexivity|]. split; [reflexivity|]. rewrite Hnh. simpl. lia.
+Qed.
+
+Lemma step_seq : forall k s c n r, Good k s c -> 1 <= n -> length (active s) + 1 <= budget k ->
+  StepOK k s c (EprKeepSeq n r).
+Proof.
+  intros k s c n r HGood Hn Hb. unfold StepOK. simpl.
+  destruct (n =? 0) eqn:En0; [apply Nat.eqb_eq in En0; lia|].
+  destruct (seq_run_ok k s c n (single_comm k) HGood Hn Hb (fun H => H)) as [s1 [c1 [E [HE [HG [HL [Hh Hnh]]]]]]].
+  rewrite E. split; [intros e He; discriminate|]. intros s' He. inversion He; subst s'. clear He.
+  exists c1. split; [exact HE|]. destruct HGood as [[A B] [_ Hlen]]. split; [|split].
+  - unfold H0. rewrite Hh, Hnh. split; [exact A|]. intros h Hh'. apply B in Hh'. lia.
+  - unfold Rel. rewrite HL. exact HG.
+  - rewrite <- (map_length fst (active s1)). fold (handles s1). rewrite Hh. unfold handles. rewrite map_length. exact Hlen.
+Qed.
+
+Lemma step_ctx : forall k s c n r, Good k s c -> 1 <= n -> length (active s) + n <= budget k ->
+  StepOK k s c (EprContext n r).
+Proof.
+  intros k s c n r HGood Hn Hb. pose proof (budget_le k) as Hbl. unfold StepOK. simpl.
   destruct (n =? 0) eqn:En0; [apply Nat.eqb_eq in En0; lia|].
   destruct (max_q k <? n) eqn:Enq; [apply Nat.ltb_lt in Enq; lia|].
-  destruct (nv k) eqn:Hnv.
-  - (* NV: a single pair *)
-    unfold hits_nv_context in Hf. rewrite Hnv in Hf. change (true && (2 <=? n)) with (2 <=? n) in Hf.
-    apply Nat.leb_gt in Hf.
-    assert (n = 1) by lia. subst n.
-    unfold ent_handles. rewrite Hnv.
-    destruct (free_up0_ok k s c HGood (Good_room _ _ _ HGood Hnv)) as [s1 [c1 [E1 [HE1 [HG1 [H01 [Hh1 [Hn1 _]]]]]]]].
-    rewrite E1. simpl. destruct HG1 as [HH1 [HR1 Hlen1]].
-    destruct (commit_G0 _ _ _ HR1) as [c2 [HE2 HG2]].
-    split; [intros e He; discriminate|]. intros s' He. inversion He; subst. clear He.
-    exists c2. split.
-    + eapply Ext_trans; [exact HE1|]. eapply Ext_trans; [exact HE2|].
-      exists (ctx_loop [0]). split.
-      * simpl. unfold add_handle, commit, all_pending. simpl. rewrite app_nil_r. reflexivity.
-      * apply ctx_loop_ok. intros v [<-|[]]. destruct HG2 as [Hcap _ _ Hs _]. split.
-        -- intros H. apply H01. apply Hs. exact H.
-        -- rewrite Hcap. lia.
-    + split; [|split].
-      * unfold H0, handles in *. simpl. rewrite (drop_last_app (active s1) [(next_h s1, 0)] 1 eq_refl).
-        rewrite Hh1 in HH1. destruct HH1 as [A B]. rewrite Hn1 in B. destruct HGood as [[A' B'] _].
-        unfold handles in Hh1. rewrite Hh1. split; assumption.
-      * unfold Rel. simpl. rewrite (drop_last_app (active s1) [(next_h s1, 0)] 1 eq_refl). exact HG2.
-      * simpl. rewrite (drop_last_app (active s1) [(next_h s1, 0)] 1 eq_refl). exact Hlen1.
-  - destruct (generic_handles k s c n HGood Hnv Hn Hb)
+  destruct (single_comm k) eqn:Hsc.
+  - (* one communication qubit: all pairs through one ID *)
+    assert (Hb1 : length (active s) + 1 <= budget k) by lia.
+    destruct (seq_run_ok k s c n false HGood Hn Hb1) as [s1 [c1 [E [HE [HG [HL [Hh Hnh]]]]]]]; [discriminate|].
+    rewrite E. split; [intros e He; discriminate|]. intros s' He. inversion He; subst s'. clear He.
+    exists c1. split; [destruct HE as [evs [Hp Ho]]; exists evs; split; [exact Hp | exact Ho]|].
+    destruct HGood as [[A B] [_ Hlen]]. split; [|split].
+    + unfold H0, handles in *. simpl. rewrite Hh. split; assumption.
+    + unfold Rel. simpl. rewrite HL. exact HG.
+    + simpl. rewrite <- (map_length fst (active s1)). fold (handles s1). rewrite Hh. unfold handles.
+      rewrite map_length. exact Hlen.
+  - assert (Hnv : nv k = false).
+    { unfold single_comm in Hsc. apply orb_false_iff in Hsc. tauto. }
+    destruct (generic_handles k s c n HGood Hnv Hn Hb)
       as [c1 [s1 [vs [new [HE [HG [E [Ha [Hv [Hl [Hp [Hln [HH1 [Hnd [Hdis Hbd]]]]]]]]]]]]]]].
     rewrite E. split; [intros e He; discriminate|]. intros s' He. inversion He; subst. clear He.
     exists c1. split.
@@ -911,9 +967,7 @@ Qed.
 Lemma step_ok : forall k s c o, Good k s c -> in_budget k s o = true -> outside_findings k s o = true ->
   o <> Flush -> StepOK k s c o.
 Proof.
-  intros k s c o HG Hb Hf Hne. unfold outside_findings in Hf. apply andb_true_iff in Hf.
-  destruct Hf as [Hf Hq]. apply andb_true_iff in Hf.
-  destruct Hf as [Hd Hc]. apply negb_true_iff in Hd. apply negb_true_iff in Hc. apply negb_true_iff in Hq.
+  intros k s c o HG Hb Hf Hne. unfold outside_findings in Hf. rename Hf into Hd. apply negb_true_iff in Hd.
   destruct o; cbn [in_budget] in Hb.
   - apply step_new; [exact HG | apply Nat.leb_le; exact Hb].
   - apply step_gate1; assumption.
@@ -924,7 +978,7 @@ Proof.
   - apply step_free; assumption.
   - apply andb_true_iff in Hb. destruct Hb as [H1 H2]. apply Nat.leb_le in H1, H2. apply step_keep; assumption.
   - apply andb_true_iff in Hb. destruct Hb as [H1 H2]. apply Nat.leb_le in H1, H2. apply step_ctx; assumption.
-  - simpl in Hq. discriminate.
+  - apply andb_true_iff in Hb. destruct Hb as [H1 H2]. apply Nat.leb_le in H1, H2. apply step_seq; assumption.
   - congruence.
 Qed.
 
@@ -1106,10 +1160,4 @@ Proof.
   intros k ops Hb Hf. unfold has_fault. destruct (existsb is_faultb (run0 k ops)) eqn:E; [|reflexivity].
   exfalso. apply existsb_exists in E. destruct E as [o [Hin Ho]].
   apply (no_alloc_fault k ops Hb Hf o Hin). destruct o as [i|i t a [f|]| |]; simpl in *; try discriminate; exact I.
-Qed.
-
-(* two handles with the same ID in the list of active qubits is not an agreeing state *)
-Lemma bad_obs_dup : forall k t a, ~ good_obs k (OFlush [0; 0] t a None).
-Proof.
-  intros k t a [_ [H _]]. inversion H as [|x l Hn Hnd]; subst. apply Hn. left. reflexivity.
 Qed.
